@@ -50,7 +50,7 @@ def tree_hash():
             files.append(os.path.join(root, f))
     files += [os.path.join(REPO, 'Cargo.toml')]
     for f in files:
-        h.update(f.encode())
+        h.update(os.path.relpath(f, REPO).encode())
         try:
             with open(f, 'rb') as fh:
                 h.update(fh.read())
